@@ -905,6 +905,16 @@ def opFEMPattern : Op K := fun n a =>
 
 
 
+/-- ints: nx sym root nsec ny_0 … ; floats: root_chord then (taper, span, sweep) per section → the section meshes [nx, ny_k, 3] in order -/
+def opSectionGeometry : Op K := fun n a =>
+  let nx := n[0]!; let sym := flag n 1; let root := n[2]!; let ns := n[3]!
+  let specs : List (Sections.Spec K) := (List.range ns).map fun k =>
+    { ny := n.getD (4 + k) 0, taper := at_ a (1 + 3 * k), span := at_ a (2 + 3 * k), sweep := at_ a (3 + 3 * k) }
+  let gs := Sections.generate nx sym root specs (at_ a 0)
+  gs.foldl (fun o g => outMesh o nx g.ny (Sections.oasMesh nx g)) #[]
+
+
+
 def ops : List (String × Op K) := [
   ("ComputeNodes", opComputeNodes),
   ("LoadTransfer", opLoadTransfer),
@@ -993,7 +1003,8 @@ def ops : List (String × Op K) := [
   ("MultiJoin", opMultiJoin),
   ("FEMResidual", opFEMResidual),
   ("MonotonicPattern", opMonotonicPattern),
-  ("FEMPattern", opFEMPattern)
+  ("FEMPattern", opFEMPattern),
+  ("SectionGeometry", opSectionGeometry)
 ]
 
 end OAS.Driver
